@@ -6,6 +6,7 @@ package apph
 import (
 	"crypto/ecdsa"
 	"crypto/sha256"
+	"encoding/hex"
 	"encoding/json"
 	"fmt"
 	"math/big"
@@ -353,6 +354,15 @@ func Build(t *TxSpec, keys map[string]Key, nodeChain string) (*Built, error) {
 		t.Time = tx.Time
 		sigok = false
 	default:
+		if strings.HasPrefix(t.Tamper, "reuse-sig:") {
+			old, err := hex.DecodeString(t.Tamper[len("reuse-sig:"):])
+			if err != nil {
+				return nil, err
+			}
+			sigok = string(old) == string(sig)
+			tx.Sig = old
+			break
+		}
 		return nil, fmt.Errorf("unknown tamper %q", t.Tamper)
 	}
 	bz, xerr := tx.Encode()
